@@ -22,6 +22,10 @@ func guard(limit time.Duration, f func()) (status int, msg string) {
 	go func() {
 		defer func() {
 			if e := recover(); e != nil {
+				if s, ok := e.(rethrown); ok {
+					ch <- res{1, string(s)}
+					return
+				}
 				st := string(debug.Stack())
 				ch <- res{1, fmt.Sprintf("%v | %s", e, firstFrames(st))}
 			}
@@ -97,4 +101,15 @@ func (e *emitter) begin(idx int, c Sx, meta Meta) {
 func (e *emitter) emit(c Sx, obs Sx, meta Meta) {
 	meta.Msg = clean(meta.Msg)
 	fmt.Fprintf(e.out, "%d\t%s\t%s\n", e.idx, L(c, obs).String(), meta.json())
+}
+
+// panicInfo renders a recovered panic value with the first frames of the library code; used by goroutines
+// the harness starts itself so that the message survives being re-raised in the guarded goroutine.
+type rethrown string
+
+func panicInfo(e interface{}) rethrown {
+	if s, ok := e.(rethrown); ok {
+		return s
+	}
+	return rethrown(fmt.Sprintf("%v | %s", e, firstFrames(string(debug.Stack()))))
 }
